@@ -99,7 +99,9 @@ func (dr *DialogueRunner) Next(choice int) (*DialogueElement, error) {
 	}
 
 	if dr.isWaitingForChoice() {
-		if statements := dr.lastStatement.ShortcutOptionStatement.Options[choice].Statements; len(statements) != 0 {
+		statements := dr.lastStatement.ShortcutOptionStatement.Options[choice].Statements
+		dr.lastStatement = nil // the choice has been consumed
+		if len(statements) != 0 {
 			dr.statementsToRun.Push(&statementQueue{
 				statements: statements,
 			})
